@@ -164,6 +164,8 @@ pub struct Sim<const M: usize> {
     pub last_cap: usize,
     pub had_err: bool,
     pub after_reset: bool,
+    /// a limit is in force that was set before the most recent reset (C06: reset keeps the limit)
+    pub limit_predates_reset: bool,
     pub no_limit_no_fault: bool,
     pub last_chunk_size: usize,
     pub total_requested: usize,
@@ -227,6 +229,7 @@ impl<const M: usize> Sim<M> {
             last_cap: 0,
             had_err: false,
             after_reset: false,
+            limit_predates_reset: false,
             no_limit_no_fault: true,
             last_chunk_size: 0,
             total_requested: 0,
@@ -383,6 +386,9 @@ impl<const M: usize> Sim<M> {
                         let held = self.held_usable();
                         if held.saturating_add(usable) > l {
                             let m = format!("limit {l}: arena held {held} usable bytes and obtained a chunk of {} ({} usable) => {} > limit", ev.size, usable, held + usable);
+                            if self.limit_predates_reset {
+                                self.v("C06", format!("the limit set before reset is not enforced after it: {m}"));
+                            }
                             self.v("C07", m);
                         }
                         self.st(St::LimitedChunkGranted);
